@@ -455,6 +455,19 @@ func (m *model) addTrigger(t *trig) {
 	panic("addTrigger: reference " + t.ref + " not found (generator error)")
 }
 
+func (m *model) dropTrigger(name string) {
+	for k, l := range m.order {
+		for i, o := range l {
+			if o.name == name {
+				nl := append([]*trig(nil), l[:i]...)
+				m.order[k] = append(nl, l[i+1:]...)
+				return
+			}
+		}
+	}
+	panic("dropTrigger: " + name + " not found (generator error)")
+}
+
 // what happened during one statement (for region predicates and the class histogram)
 type stmtInfo struct {
 	failed        bool
